@@ -228,6 +228,8 @@ macro_rules! impl_cache {
                 let (index, conflict) = self.key_to_hash.build_key(key);
 
                 self.get_buf.push(index);
+                #[cfg(transparencies_stretto_verif)]
+                crate::verif::yield_point("get:after_push");
 
                 match self.store.get(&index, conflict) {
                     None => {
@@ -255,6 +257,8 @@ macro_rules! impl_cache {
                 let (index, conflict) = self.key_to_hash.build_key(key);
 
                 self.get_buf.push(index);
+                #[cfg(transparencies_stretto_verif)]
+                crate::verif::yield_point("get:after_push");
 
                 match self.store.get_mut(&index, conflict) {
                     None => {
@@ -415,6 +419,8 @@ macro_rules! impl_cache_processor {
                     } => {
                         let cost = self.calculate_internal_cost(cost);
                         let (victim_sets, added) = self.policy.add(key, cost);
+                        #[cfg(transparencies_stretto_verif)]
+                        crate::verif::yield_point("proc:new:after_add");
                         if added {
                             self.store.try_insert(key, value, conflict, expiration)?;
                             self.track_admission(key);
@@ -428,8 +434,12 @@ macro_rules! impl_cache_processor {
                             });
                         }
 
+                        #[cfg(transparencies_stretto_verif)]
+                        crate::verif::yield_point("proc:new:after_store");
                         if let Some(victims) = victim_sets {
                             for victim in victims {
+                                #[cfg(transparencies_stretto_verif)]
+                                crate::verif::yield_point("proc:new:victim");
                                 let sitem = self.store.try_remove(&victim.key, 0)?;
                                 if let Some(sitem) = sitem {
                                     let item = CrateItem {
@@ -458,6 +468,8 @@ macro_rules! impl_cache_processor {
                     }
                     $item::Delete { key, conflict } => {
                         self.policy.remove(&key); // deals with metrics updates.
+                        #[cfg(transparencies_stretto_verif)]
+                        crate::verif::yield_point("proc:del:after_policy");
                         if let Some(sitem) = self.store.try_remove(&key, conflict)? {
                             self.callback.on_exit(Some(sitem.value.into_inner()));
                         }
@@ -544,6 +556,8 @@ macro_rules! impl_async_cache {
                 let (index, conflict) = self.key_to_hash.build_key(key);
 
                 self.get_buf.push(index).await;
+                #[cfg(transparencies_stretto_verif)]
+                crate::verif::yield_point("get:after_push");
 
                 match self.store.get(&index, conflict) {
                     None => {
@@ -571,6 +585,8 @@ macro_rules! impl_async_cache {
                 let (index, conflict) = self.key_to_hash.build_key(key);
 
                 self.get_buf.push(index).await;
+                #[cfg(transparencies_stretto_verif)]
+                crate::verif::yield_point("get:after_push");
 
                 match self.store.get_mut(&index, conflict) {
                     None => {
